@@ -164,7 +164,22 @@ impl Sandbox {
         for (k, v) in &step.env {
             cmd.env(k, v);
         }
-        cmd.stdin(Stdio::null()).stdout(Stdio::piped()).stderr(Stdio::piped());
+        cmd.stdin(Stdio::null()).stderr(Stdio::piped());
+        match &step.stdout_to {
+            // models `truth-core ... > file`: fd 1 is a file in the sandbox, tracked (and faulted) by the shim
+            Some(p) => {
+                let full = self.dir.join(p);
+                if let Some(parent) = full.parent() {
+                    let _ = std::fs::create_dir_all(parent);
+                }
+                let f = std::fs::File::create(&full).expect("create stdout file");
+                self.state.remove(p.as_str());
+                cmd.stdout(f).env("TRUSIM_STDOUT", p);
+            }
+            None => {
+                cmd.stdout(Stdio::piped());
+            }
+        }
         cmd.env("TRUSIM_CPU_S", cpu_s.to_string()).env("TRUSIM_AS_BYTES", cfg.as_limit_bytes.to_string());
         let child = cmd.spawn().unwrap_or_else(|e| panic!("spawn {}: {}", cfg.truth_bin.display(), e));
         self.runs += 1;
@@ -248,10 +263,6 @@ impl Sandbox {
                 self.state.insert(rel.clone(), (crate::rng::hash_bytes(&data), now));
                 o.files.insert(rel, data);
             }
-        }
-        if let Some(p) = &step.stdout_to {
-            let data = o.stdout.clone();
-            self.put(p, &data);
         }
         // normalise the worker-specific sandbox root in text outputs
         let root = self.dir.to_string_lossy().into_owned();
